@@ -597,6 +597,203 @@ Proof.
       exists pre, tok, rest, ls1, st1, p, a. auto.
 Qed.
 
+(** * What the tail can change in the matcher *)
+
+(** T2 at the level of the loop result (sink class): after [--] and a non-empty tail the loop
+    ends with the tail appended to the pending occurrence of the sink positional; the entries of
+    the matcher are those of [flush_for a st] -- the state at the escape, with the occurrence that
+    was open there closed exactly as it is closed when nothing follows the [--] *)
+Theorem trailing_done_sink : forall tok tail ls st st' a,
+  l_trailing ls = true -> sink_arg (l_pos ls) = Some a ->
+  parse_loop c (tok :: tail) ls st = ROk (LDone st') ->
+  exists st0 p, flush_for a st = ROk st0 /\
+    mt_pending (mt st') = Some p /\ beq (p_id p) (a_id a) = true /\
+    p_raw p = pend_raw (mt st0) ++ tok :: tail /\
+    p_trailing_idx p = Some (pend_ti (mt st0)) /\
+    mt_args (mt st') = mt_args (mt st0) /\ mt_sub (mt st') = mt_sub (mt st0) /\
+    cur_idx st' = cur_idx st0.
+Proof.
+  intros tok tail ls st st' a Htr Hs E.
+  destruct (trailing_outcome (tok :: tail) ls st Htr) as [ls' st2 Hr Er|pre tok' rest ls1 st1 Eq Hr Hst].
+  - rewrite E in Er. injection Er as ->. eapply tail_verbatim; eassumption.
+  - rewrite E in Hst. inversion Hst.
+Qed.
+
+(** frame of [react]: resolving an occurrence of [a] changes only the entries of [a] itself, of
+    the groups [a] belongs to, of the arguments [a] overrides and of those that override [a] *)
+Definition touched (a : arg) (x : id) : bool :=
+  beq (a_id a) x || existsb (fun g => beq g x) (groups_for_arg c (a_id a))
+  || existsb (fun o => beq o x) (a_overrides a)
+  || match find_arg c x with Some ov => mem_id (a_id a) (a_overrides ov) | None => false end.
+
+Lemma fm_get_update_other {V} k x (f : V -> V) : forall l, beq k x = false -> fm_get x (fm_update k f l) = fm_get x l.
+Proof.
+  intros l H. induction l as [|[k' v] t IH]; [reflexivity|]. cbn [fm_update fm_get].
+  destruct (beq k' k) eqn:E; cbn [fm_get].
+  - apply beq_eq in E. subst k'. rewrite H. reflexivity.
+  - rewrite IH. reflexivity.
+Qed.
+Lemma fm_get_remove_other {V} k x : forall (l : list (id * V)), beq k x = false -> fm_get x (fst (fm_remove k l)) = fm_get x l.
+Proof.
+  intros l H. induction l as [|[k' v] t IH]; [reflexivity|]. cbn [fm_remove fm_get].
+  destruct (beq k' k) eqn:E.
+  - apply beq_eq in E. subst k'. rewrite H. reflexivity.
+  - destruct (fm_remove k t) as [t' b]. cbn [fst fm_get] in *. rewrite IH. reflexivity.
+Qed.
+Lemma fm_get_app_other {V} k x (v : V) : forall l, beq k x = false -> fm_get x (l ++ [(k, v)]) = fm_get x l.
+Proof.
+  intros l H. induction l as [|[k' v'] t IH]; cbn [app fm_get]; [rewrite H; reflexivity|].
+  rewrite IH. reflexivity.
+Qed.
+Lemma fm_get_entry_other {V} k x (v0 : V) f l : beq k x = false -> fm_get x (fm_entry_or_insert k v0 f l) = fm_get x l.
+Proof.
+  intros H. unfold fm_entry_or_insert. destruct (fm_contains k l);
+    [apply fm_get_update_other|apply fm_get_app_other]; exact H.
+Qed.
+
+Definition get_entry (x : id) (st : ps) := fm_get x (mt_args (mt st)).
+
+Lemma mt_remove_frame m k x : beq k x = false -> fm_get x (mt_args (fst (mt_remove m k))) = fm_get x (mt_args m).
+Proof.
+  intros H. unfold mt_remove. pose proof (fm_get_remove_other k x (mt_args m) H) as E.
+  destruct (fm_remove k (mt_args m)) as [l b]. cbn [fst] in *. exact E.
+Qed.
+
+Lemma fold_remove_frame x : forall l m,
+  existsb (fun o => beq o x) l = false ->
+  fm_get x (mt_args (fold_left (fun m o => fst (mt_remove m o)) l m)) = fm_get x (mt_args m).
+Proof.
+  induction l as [|o l IH]; intros m H; [reflexivity|].
+  cbn [existsb] in H. apply orb_false_iff in H as [Ho Hl].
+  cbn [fold_left]. rewrite IH by exact Hl. apply mt_remove_frame. exact Ho.
+Qed.
+
+Lemma remove_overrides_frame a m x : touched a x = false ->
+  fm_get x (mt_args (remove_overrides c a m)) = fm_get x (mt_args m).
+Proof.
+  unfold touched. intros H. apply orb_false_iff in H as [H Htr]. apply orb_false_iff in H as [H Hov].
+  unfold remove_overrides. rewrite fold_remove_frame.
+  - apply fold_remove_frame. exact Hov.
+  - clear -Htr. generalize (arg_ids (fold_left (fun m o => fst (mt_remove m o)) (a_overrides a) m)).
+    induction l as [|i l IH]; [reflexivity|]. cbn [filter].
+    destruct (match find_arg c i with Some ov => mem_id (a_id a) (a_overrides ov) | None => false end) eqn:Ei;
+      [|exact IH].
+    cbn [existsb]. rewrite IH, orb_false_r.
+    destruct (beq i x) eqn:Eb; [|reflexivity]. apply beq_eq in Eb. subst i. rewrite Htr in Ei. discriminate.
+Qed.
+
+Lemma add_val_to_frame m k v m' x : add_val_to m k v = Some m' -> beq k x = false ->
+  fm_get x (mt_args m') = fm_get x (mt_args m).
+Proof.
+  unfold add_val_to. destruct (fm_get k (mt_args m)) as [e|]; [|discriminate].
+  destruct (append_val v e); [|discriminate]. intros E H. injection E as <-. cbn.
+  apply fm_get_update_other. exact H.
+Qed.
+Lemma add_index_to_frame m k i m' x : add_index_to m k i = Some m' -> beq k x = false ->
+  fm_get x (mt_args m') = fm_get x (mt_args m).
+Proof.
+  unfold add_index_to. destruct (fm_get k (mt_args m)) as [e|]; [|discriminate].
+  intros E H. injection E as <-. cbn. apply fm_get_update_other. exact H.
+Qed.
+
+Lemma push_arg_values_frame a x : beq (a_id a) x = false -> forall raw st st',
+  push_arg_values c a raw st = ROk st' -> get_entry x st' = get_entry x st.
+Proof.
+  intros H. induction raw as [|v t IH]; intros st st'; cbn [push_arg_values].
+  - intros E. injection E as <-. reflexivity.
+  - unfold expect. destruct (a_vp a) as [vp|]; cbn [rbind]; [|discriminate].
+    destruct (vp_parse vp v); [discriminate|].
+    destruct (add_val_to _ _ _) as [m1|] eqn:E1; cbn [rbind]; [|discriminate].
+    destruct (add_index_to _ _ _) as [m2|] eqn:E2; cbn [rbind]; [|discriminate].
+    intros E. rewrite (IH _ _ E). unfold get_entry. cbn.
+    rewrite (add_index_to_frame _ _ _ _ _ E2 H), (add_val_to_frame _ _ _ _ _ E1 H). reflexivity.
+Qed.
+
+Lemma start_custom_arg_frame a s m m' x : touched a x = false ->
+  start_custom_arg c a s m = ROk m' -> fm_get x (mt_args m') = fm_get x (mt_args m).
+Proof.
+  intros Ht. pose proof Ht as Ht0. unfold touched in Ht.
+  apply orb_false_iff in Ht as [Ht _]. apply orb_false_iff in Ht as [Ht _].
+  apply orb_false_iff in Ht as [Hid Hg].
+  unfold start_custom_arg.
+  set (m1 := match s with SCmdLine => remove_overrides c a m | _ => m end).
+  assert (E1 : fm_get x (mt_args m1) = fm_get x (mt_args m)).
+  { subst m1. destruct s; try reflexivity. apply remove_overrides_frame. exact Ht0. }
+  assert (E2 : fm_get x (mt_args (start_custom_arg_m m1 a s)) = fm_get x (mt_args m)).
+  { rewrite <- E1. unfold start_custom_arg_m. cbn. apply fm_get_entry_other. exact Hid. }
+  destruct (src_explicit s).
+  - revert E2. generalize (start_custom_arg_m m1 a s). revert Hg. generalize (groups_for_arg c (a_id a)).
+    intros l Hl m0 E0.
+    assert (H : forall l r, existsb (fun g => beq g x) l = false ->
+              (forall mm, r = ROk mm -> fm_get x (mt_args mm) = fm_get x (mt_args m)) ->
+              fold_left (fun rm g => do m <- rm; let m' := start_custom_group_m m g s in
+                                     expect 1533 (add_val_to m' g (a_id a))) l r = ROk m' ->
+              fm_get x (mt_args m') = fm_get x (mt_args m)).
+    { clear. induction l as [|g l IH]; intros r Hl Hr; cbn [fold_left]; [apply Hr|].
+      cbn [existsb] in Hl. apply orb_false_iff in Hl as [Hg Hl].
+      apply IH; [exact Hl|]. intros mm. destruct r as [m2| |]; cbn [rbind]; try discriminate.
+      unfold expect. destruct (add_val_to _ _ _) as [m3|] eqn:E3; [|discriminate].
+      intros E. injection E as <-. rewrite (add_val_to_frame _ _ _ _ _ E3 Hg).
+      unfold start_custom_group_m. cbn. rewrite fm_get_entry_other by exact Hg. apply Hr. reflexivity. }
+    apply H; [exact Hl|]. intros mm E. injection E as <-. exact E0.
+  - intros E. injection E as <-. exact E2.
+Qed.
+
+Lemma react_core_frame idn s a raw ti st st' r x :
+  touched a x = false ->
+  react_core c idn s a raw ti st = ROk (st', r) -> get_entry x st' = get_entry x st.
+Proof.
+  intros Ht. pose proof Ht as Ht0. unfold touched in Ht.
+  apply orb_false_iff in Ht as [Ht _]. apply orb_false_iff in Ht as [Ht _].
+  apply orb_false_iff in Ht as [Hid _].
+  unfold react_core.
+  destruct (if is_cmdline s then verify_num_args c a raw st else ROk tt) as [u|e0 s0|s0]; cbn [rbind];
+    try discriminate.
+  match goal with |- context [match ?x with (r, t) => _ end] => destruct x as [raw' ti'] end.
+  unfold expect. destruct (delimit c a raw' ti') as [raw2|]; cbn [rbind]; [|discriminate].
+  assert (Hpush : forall rawx stx m2,
+            get_entry x (stx <| mt := m2 |>) = get_entry x st ->
+            (do st2 <- push_arg_values c a rawx (stx <| mt := m2 |>); ROk (st2, PRValuesDone)) = ROk (st', r) ->
+            get_entry x st' = get_entry x st).
+  { intros rawx stx m2 E0. destruct (push_arg_values c a rawx _) as [s2|e2 s2|s2] eqn:Ep; cbn [rbind]; try discriminate.
+    intros E. injection E as <- _. rewrite (push_arg_values_frame a x Hid _ _ _ Ep). exact E0. }
+  assert (Hsc : forall m stx rawx, fm_get x (mt_args m) = get_entry x st ->
+            (do m2 <- start_custom_arg c a s m;
+             do st2 <- push_arg_values c a rawx (stx <| mt := m2 |>); ROk (st2, PRValuesDone)) = ROk (st', r) ->
+            get_entry x st' = get_entry x st).
+  { intros m stx rawx E0. destruct (start_custom_arg c a s m) as [m2|e1 s1|s1] eqn:Es; cbn [rbind]; try discriminate.
+    apply Hpush. unfold get_entry. cbn. rewrite (start_custom_arg_frame _ _ _ _ _ Ht0 Es). exact E0. }
+  assert (Hbump : forall b : bool, get_entry x (if b then ps_bump st else st) = get_entry x st).
+  { intros []; reflexivity. }
+  assert (Hrem : forall stx, get_entry x stx = get_entry x st ->
+            fm_get x (mt_args (fst (mt_remove (mt stx) (a_id a)))) = get_entry x st).
+  { intros stx E0. rewrite mt_remove_frame by exact Hid. exact E0. }
+  destruct (a_get_action a); try discriminate.
+  - match goal with |- context [mt_remove (mt ?sx) ?i] =>
+      pose proof (Hrem sx (Hbump _)) as Hr; destruct (mt_remove (mt sx) i) as [m1 removed] end.
+    cbn [fst] in Hr. destruct (removed && _); [discriminate|]. apply Hsc. exact Hr.
+  - apply Hsc. apply Hbump.
+  - match goal with |- context [mt_remove (mt ?sx) ?i] =>
+      pose proof (Hrem sx (Hbump false)) as Hr; destruct (mt_remove (mt sx) i) as [m1 removed] end.
+    cbn [fst] in Hr. destruct (removed && _); [discriminate|]. apply Hsc. exact Hr.
+  - match goal with |- context [mt_remove (mt ?sx) ?i] =>
+      pose proof (Hrem sx (Hbump false)) as Hr; destruct (mt_remove (mt sx) i) as [m1 removed] end.
+    cbn [fst] in Hr. destruct (removed && _); [discriminate|]. apply Hsc. exact Hr.
+  - match goal with |- context [mt_remove (mt ?sx) ?i] =>
+      pose proof (Hrem sx (eq_refl _)) as Hr; destruct (mt_remove (mt sx) i) as [m1 removed] end.
+    cbn [fst] in Hr. apply Hsc. exact Hr.
+Qed.
+
+(** T3: closing a pending occurrence of [a] leaves every entry outside [touched a] as it was *)
+Theorem resolve_pending_frame : forall st st' p a x,
+  mt_pending (mt st) = Some p -> find_arg c (p_id p) = Some a -> touched a x = false ->
+  resolve_pending c st = ROk st' -> get_entry x st' = get_entry x st.
+Proof.
+  intros st st' p a x Hp Hf Ht. unfold resolve_pending. rewrite Hp, Hf. cbn [expect rbind].
+  destruct (react_core c _ _ a _ _ _) as [[s2 r]| |] eqn:Er; cbn [rbind]; try discriminate.
+  intros E. injection E as <-. cbn [fst]. rewrite (react_core_frame _ _ _ _ _ _ _ _ _ Ht Er). reflexivity.
+Qed.
+
 (** * The iteration on [--] *)
 Definition dashdash : bytes := [DASH; DASH].
 
@@ -649,3 +846,69 @@ Proof.
 Qed.
 
 End Escape.
+
+(** * Non-vacuity: a command with an option accepting hyphen values, a subcommand and a
+    multi-valued [last] positional *)
+Definition ex_pos : arg :=
+  (arg_new [112]) <| a_index := Some 1 |> <| a_action := Some AAppend |>
+    <| a_num := Some {| vmin := 1; vmax := usize_max |} |> <| a_vp := Some VPOsString |>
+    <| a_last := true |> <| a_delim := Some 44 |>.
+Definition ex_opt : arg :=
+  (arg_new [111]) <| a_long := Some [111; 112; 116] |> <| a_action := Some ASet |>
+    <| a_num := Some {| vmin := 1; vmax := 2 |} |> <| a_vp := Some VPOsString |> <| a_hyphen := true |>.
+Definition ex_cmd : cmd :=
+  (cmd_new [112]) <| c_args := [ex_opt; ex_pos] |> <| c_subs := [cmd_new [115; 117; 98]] |>.
+Definition ex_ls0 := mkL PSValuesDone 1 false false.
+Definition t_help : bytes := [45; 45; 104; 101; 108; 112].
+Definition t_sub : bytes := [115; 117; 98].
+Definition t_optv : bytes := [45; 45; 111; 112; 116; 61; 118].
+
+Example ex_sink : sink_arg ex_cmd 1 = Some ex_pos.
+Proof. vm_compute. reflexivity. Qed.
+
+(** [-- --help sub "" --opt=v --]: every token lands in the pending occurrence of the positional *)
+Example ex_run :
+  match parse_loop ex_cmd [dashdash; t_help; t_sub; []; t_optv; dashdash] ex_ls0 ps_new with
+  | ROk (LDone st) => pend_raw (mt st) = [t_help; t_sub; []; t_optv; dashdash] /\ mt_args (mt st) = []
+  | _ => False
+  end.
+Proof. vm_compute. split; reflexivity. Qed.
+
+(** the same tokens without the escape: the first one is a help request *)
+Example ex_run_no_escape :
+  match parse_loop ex_cmd [t_help; t_sub] ex_ls0 ps_new with
+  | RErr _ _ => True
+  | _ => False
+  end.
+Proof. vm_compute. exact I. Qed.
+
+Example ex_escape_hyps :
+  l_trailing ex_ls0 = false /\ sub_hit ex_cmd dashdash ex_ls0 = None /\
+  state_arg ex_cmd (l_pst ex_ls0) = ROk None /\ hyphen_pending None = false.
+Proof. vm_compute. repeat split; reflexivity. Qed.
+
+Example ex_hyphen_hyps :
+  let ls := mkL (PSOpt [111]) 1 true false in
+  l_trailing ls = false /\ sub_hit ex_cmd dashdash ls = None /\ l_pst ls = PSOpt [111] /\
+  find_arg ex_cmd [111] = Some ex_opt /\ a_hyphen ex_opt = true.
+Proof. vm_compute. repeat split; reflexivity. Qed.
+
+(** [--opt -- --help]: the option (hyphen values, up to two values) takes [--] and then
+    [--help] as its values; the loop never enters trailing mode *)
+Example ex_hyphen_run :
+  match parse_loop ex_cmd [[45; 45; 111; 112; 116]; dashdash; t_help] ex_ls0 ps_new with
+  | ROk (LDone st) =>
+      mt_pending (mt st) = Some (mkPending [111] (Some ILong) [dashdash; t_help] None)
+  | _ => False
+  end.
+Proof. vm_compute. reflexivity. Qed.
+
+Example ex_touched : touched ex_cmd ex_pos [111] = false /\ touched ex_cmd ex_pos [112] = true.
+Proof. vm_compute. split; reflexivity. Qed.
+
+Example ex_delimit_hyps :
+  let c := ex_cmd <| c_set := settings_none <| s_dont_delimit_trailing := true |> |> in
+  is_set s_dont_delimit_trailing c = true /\
+  delimit c ex_pos [[97; 44; 98]] (Some 1) = Some [[97]; [98]] /\
+  delimit c ex_pos ([[97; 44; 98]] ++ [[99; 44; 100]; [44]]) (Some 1) = Some ([[97]; [98]] ++ [[99; 44; 100]; [44]]).
+Proof. vm_compute. repeat split; reflexivity. Qed.
